@@ -25,6 +25,23 @@ def walk(t, v, fn, path=()):
                 walk(at, v[1], fn, path + (n,))
 
 
+def approx_octets(v):
+    """rough lower bound of the encoded size of a value in octets"""
+    if isinstance(v, (bytes, bytearray, str)):
+        return len(v)
+    if isinstance(v, tuple) and len(v) == 2 and isinstance(v[0], (bytes, bytearray)):
+        return len(v[0])
+    if isinstance(v, tuple) and len(v) == 2:
+        return approx_octets(v[1])
+    if isinstance(v, list):
+        return len(v) // 8 + sum(approx_octets(e) for e in v)
+    if isinstance(v, dict):
+        return sum(approx_octets(e) for e in v.values())
+    if isinstance(v, int) and not isinstance(v, bool):
+        return v.bit_length() // 8
+    return 0
+
+
 def value_tags(t, v, codec):
     """Finding predicates over (type, value): names of the known-defect shapes this case touches."""
     tags = set()
@@ -54,10 +71,14 @@ def value_tags(t, v, codec):
         if k == 'str' and t['kind'] == 'UTF8String' and t['size'] and not t['size'][2] and t['size'][0] == t['size'][1]:
             if len(v.encode('utf-8')) != t['size'][0]:
                 tags.add('oer-fixed-utf8')
+        if k == 'choice' and t['ext'] and v[0] in [n for n, _ in t['ext']] and approx_octets(v[1]) >= 16000:
+            tags.add('unfragmented')      # open type of an extension alternative >= 16K octets
         if k == 'seq' and t['ext']:
             for m in t['ext']:
                 if not m['opt'] and m['default'] is None and m['name'] not in v:
                     tags.add('mandatory-addition-missing')
+                if m['name'] in v and approx_octets(v[m['name']]) >= 16000:
+                    tags.add('unfragmented')  # open type of an extension addition >= 16K octets
             if len(t['ext']) > 64:
                 tags.add('many-additions')
     walk(t, v, visit)
